@@ -331,6 +331,100 @@ class Ctx(object):
         return model_run(entry, cases)
 
 
+def compare(R, ctx, entry, cases, enc_case, impl_fn, key=None, eq=None, limit=20.0):
+    """Correspondence of one model entry point: run the implementation (forked workers) and the extracted
+    model on the same cases; record disagreements.  Returns the implementation's results."""
+    cases = list(cases)
+    impl = pmap(impl_fn, cases, limit)
+    R.evaluations += len(cases)
+    if ctx.model_ok and cases:
+        model = ctx.model(entry, [enc_case(c) for c in cases])
+        for c, m, i in zip(cases, model, impl):
+            R.compared += 1
+            if not (eq(m, i) if eq is not None else m == i):
+                R.disagree(entry, c, m, i)
+    for c in cases[:2]:
+        R.sample({'entry': entry, 'case': c})
+    R.nontrivial_extra += len(set(map(key, cases))) if key is not None else len(cases)
+    R.extra.setdefault('input_distribution', {})
+    R.extra['input_distribution'][entry] = R.extra['input_distribution'].get(entry, 0) + len(cases)
+    return impl
+
+
+class Catch(object):
+    """Picklable wrapper: calls f(case); an exception escaping f becomes the marker `exc`
+    (Parser.parse maps every exception of a built-in to #ERROR!)."""
+
+    def __init__(self, f, exc=None):
+        self.f = f
+        self.exc = exc
+
+    def __call__(self, c):
+        try:
+            return self.f(c)
+        except Exception as e:  # noqa
+            return self.exc if self.exc is not None else ['EXC', type(e).__name__]
+
+
+def canon(v):
+    """Canonical JSON-able form of a value returned by the implementation."""
+    import datetime
+    from hotxlfp.formulas.error import XLError
+    if isinstance(v, XLError):
+        return ['E', str(v)]
+    if isinstance(v, bool):
+        return ['B', int(v)]
+    if isinstance(v, int):
+        return ['I', v]
+    if isinstance(v, float):
+        return ['F', repr(v)]
+    if isinstance(v, str):
+        return ['T', v]
+    if v is None:
+        return ['N']
+    if isinstance(v, datetime.datetime):
+        return ['D', v.year, v.month, v.day, v.hour, v.minute, v.second, v.microsecond]
+    if isinstance(v, (list, tuple)):
+        return ['L'] + [canon(x) for x in v]
+    if isinstance(v, complex):
+        return ['C', repr(v)]
+    return ['O', type(v).__name__]
+
+
+_PARSER = None
+
+
+def ev(formula, variables=None, functions=None, fresh=False):
+    """Evaluate a formula on the implementation; returns ('R', canonical value) or ('E', code) or ('X', exc name)."""
+    global _PARSER
+    import hotxlfp
+    if fresh or variables or functions or _PARSER is None:
+        p = hotxlfp.Parser()
+        if not (variables or functions or fresh):
+            _PARSER = p
+    else:
+        p = _PARSER
+    for k, v in (variables or {}).items():
+        p.set_variable(k, v)
+    for k, v in (functions or {}).items():
+        p.set_function(k, v)
+    try:
+        r = p.parse(formula)
+    except Exception as e:  # noqa - parse must never raise (C01)
+        return ('X', type(e).__name__)
+    if r['error'] is not None:
+        return ('E', r['error'])
+    return ('R', canon(r['result']))
+
+
+def ev_raw(formula, variables=None):
+    import hotxlfp
+    p = hotxlfp.Parser()
+    for k, v in (variables or {}).items():
+        p.set_variable(k, v)
+    return p.parse(formula)
+
+
 def load_known(prop_id):
     p = os.path.join(VERIF, 'known_findings.json')
     if not os.path.exists(p):
@@ -481,8 +575,11 @@ def run_property(mod, tier, seed, scratch):
         'wall_s': round(time.time() - t0, 2),
         'violations': len(unlisted) if unlisted else (1 if broken else 0),
     }
-    os.makedirs(os.path.join(VERIF, 'evidence'), exist_ok=True)
-    with open(os.path.join(VERIF, 'evidence', pid + '.json'), 'w') as f:
+    evdir = os.path.join(VERIF, 'evidence')
+    if os.environ.get('VERIF_NO_EVIDENCE'):      # mutation trials (tools/seedtest.sh) must not overwrite the evidence
+        evdir = scratch
+    os.makedirs(evdir, exist_ok=True)
+    with open(os.path.join(evdir, pid + '.json'), 'w') as f:
         json.dump(ev, f, indent=1, sort_keys=True, default=repr)
     print('%s tier=%s seed=%d: proof %s (%d/%d obligations), %d evaluations, %d comparisons, '
           '%d disagreements, %d unlisted violations, %.1fs' %
